@@ -48,6 +48,8 @@ pub struct SubRec {
     /// number of stabilise calls started when it was created (+1 if created inside a handler)
     pub eligible_from_round: u32,
     pub deliveries: Vec<(u32, Upd)>,
+    /// the handler owns a guard that cancels this (sibling) subscription when the handler is dropped
+    pub guard_target: Option<usize>,
 }
 
 #[derive(Default, Clone, Debug)]
@@ -473,7 +475,18 @@ impl World {
                 let sub = self.sh.next_sub.get();
                 self.sh.next_sub.set(sub + 1);
                 let h = self.tables.borrow().observers[*o][0].clone();
-                let r = subscribe(&h, &self.sh, &Rc::downgrade(&self.tables), sub, script.clone());
+                let guard = if script.contains(&InOp::GuardSibling) {
+                    let t = self.tables.borrow();
+                    (0..t.subs.len()).rev().find_map(|j| match t.subs[j] {
+                        Some((oo, tk)) if oo == *o => Some((j, tk)),
+                        _ => None,
+                    })
+                } else {
+                    None
+                };
+                let guard_target = guard.map(|g| g.0);
+                let guard = guard.map(|(target, token)| SiblingGuard { state: self.st().weak(), token, sh: self.sh.clone(), target, owner: sub });
+                let r = subscribe_guarded(&h, &self.sh, &Rc::downgrade(&self.tables), sub, script.clone(), guard);
                 drop(h);
                 let expect_ok = self.observers[*o].state != ObsState::Gone;
                 match (&r, expect_ok) {
@@ -499,6 +512,7 @@ impl World {
                         phase: SubPhase::Fresh,
                         eligible_from_round: self.rounds() + 1,
                         deliveries: vec![],
+                        guard_target: if r.is_ok() { guard_target } else { None },
                     });
                 }
             }
@@ -510,16 +524,12 @@ impl World {
                 if r != Ok(()) {
                     self.violate("C10", format!("unsubscribe of own token on o{o} returned {:?}", r));
                 }
-                if let Some(s) = self.subs[*sub].as_mut() {
-                    s.active = false;
-                }
+                self.cancel_with_guards(*sub);
             }
             Action::StateUnsubscribe(sub) => {
                 let (_o, tok): (usize, SubscriptionToken) = self.tables.borrow().subs[*sub].expect("verif: unknown sub");
                 self.st().unsubscribe(tok);
-                if let Some(s) = self.subs[*sub].as_mut() {
-                    s.active = false;
-                }
+                self.cancel_with_guards(*sub);
             }
             Action::DropHandle(n) => {
                 self.handles[*n] = None;
@@ -953,7 +963,7 @@ impl World {
                 self.subs.push(None);
             }
             if ok {
-                self.subs[sub] = Some(SubRec { obs, active: !cancelled_new.contains(&sub), phase: SubPhase::Fresh, eligible_from_round: k + 1, deliveries: vec![] });
+                self.subs[sub] = Some(SubRec { obs, active: !cancelled_new.contains(&sub), phase: SubPhase::Fresh, eligible_from_round: k + 1, deliveries: vec![], guard_target: None });
             }
         }
         if !self.stats.recompute_orders.contains(&order_hash) && self.stats.recompute_orders.len() < 4096 {
@@ -1792,6 +1802,21 @@ impl World {
         bad
     }
 
+
+    /// a subscription is cancelled between stabilises: its handler is dropped now, and with it a
+    /// guard that cancels a sibling, whose handler may own a guard in turn
+    fn cancel_with_guards(&mut self, sub: usize) {
+        let mut cur = Some(sub);
+        while let Some(x) = cur {
+            let Some(rec) = self.subs.get_mut(x).and_then(|s| s.as_mut()) else { break };
+            let was_active = rec.active;
+            rec.active = false;
+            if !was_active {
+                break;
+            }
+            cur = rec.guard_target;
+        }
+    }
 
     /// C13: after an injected panic escaped stabilise. Returns the kind of user function that panicked.
     pub fn post_fault_checks(&mut self) -> &'static str {
